@@ -13,6 +13,11 @@ by corpus/C11/*.trace):
   * the clause "after Remove … stores no further change" of `removed_sticky` is FALSE
     → `push_after_remove_witness`; the proved part is `removed_sticky` (flag permanent, echoed in
     every later response, invisible to Attach by key).
+  * `cfg.deactivateDetachesRemoved` selects the tree before (`false`) or with (`true`)
+    `hooks/fix-c11-deactivate-holding-removed.patch`: before it, a client that still held a document a peer had
+    removed could not be deactivated (first half of `deactivate_blocked_witness`, replayed by
+    corpus/C11/srv-deactivate-holding-removed.trace); repaired: `deactivate_looks_up_removed`,
+    `deactivate_holding_removed`.
   * `cfg.detachWithoutOwnChange` selects the tree before (`false`) or with (`true`)
     `hooks/fix-c11-deactivate-without-own-change.patch`: before it, a client attached to a document in which
     it has no stored change at or below its checkpoint could not be deactivated (second half of
@@ -49,8 +54,18 @@ def presChange (c cs tag : Nat) : ChangeReq :=
 def opsChange (c cs : Nat) (lam : Int) (tag : Nat) : ChangeReq :=
   { clientSeq := cs, lamport := lam, vv := [(c, lam)], actor := c, hasOps := true, hasPresence := false, tag := tag }
 
-def pinned : Config := { detachGuardFirst := false, pushAfterRemoveDiscards := false, detachWithoutOwnChange := false }
-def fixed : Config := { detachGuardFirst := true, pushAfterRemoveDiscards := false, detachWithoutOwnChange := true }
+/-- the head (`DocInfo.ServerSeq`) of a document -/
+def headOfDoc (s : Server) (d : DocId) : Option Int := (s.findDoc d).map (·.serverSeq)
+
+/-- the error of a result -/
+def errOf : Except ErrKind Resp → Option ErrKind
+  | .error e => some e
+  | .ok _ => none
+
+def pinned : Config := { detachGuardFirst := false, pushAfterRemoveDiscards := false, detachWithoutOwnChange := false,
+                         deactivateDetachesRemoved := false }
+def fixed : Config := { detachGuardFirst := true, pushAfterRemoveDiscards := false, detachWithoutOwnChange := true,
+                        deactivateDetachesRemoved := true }
 
 /-- A attaches, syncs, detaches; B is attached (corpus/C11/proto-detached-push.trace) -/
 def afterDetach (cfg : Config) : Server := run (Server.init cfg) [
@@ -665,9 +680,11 @@ theorem lifecycle_deactivate (s : Server) (c : ClientId) (order : List DocId) :
         simp only [Client.statusOf, hg, Option.map_some, ne_eq, Option.some.injEq]
         exact this
 
-/-- DEVIATIONS D1/D2, witnesses: (D1, memory DB) a client that still has a document attached which
-a peer removed cannot be deactivated (`FindDocInfosByIDs` skips removed documents → count mismatch →
-internal error); (D2) a client attached to a document into which it never stored a change (here: a
+/-- DEVIATIONS D1/D2, witnesses on the trees BEFORE their repairs (`pinned`): (D1, memory DB) a client that
+still has a document attached which a peer removed cannot be deactivated (`FindDocInfosByIDs` skips removed
+documents → count mismatch → internal error) – before `hooks/fix-c11-deactivate-holding-removed.patch`
+(`pinned.deactivateDetachesRemoved = false`); repaired: `deactivate_looks_up_removed`,
+`deactivate_holding_removed`; (D2) a client attached to a document into which it never stored a change (here: a
 presenceless document strips its only, presence-only, change) cannot be deactivated
 (`FindLatestChangeInfoByActor` → change not found) – D2 on the tree BEFORE
 `hooks/fix-c11-deactivate-without-own-change.patch` (`pinned.detachWithoutOwnChange = false`); repaired:
@@ -681,6 +698,55 @@ theorem deactivate_blocked_witness :
     (let s := run (Server.init pinned) [.activate,
         .attach 0 0 { cp := ⟨0, 0⟩, changes := [presChange 0 1 1], vv := [] } true false]   -- disablePresence
      clientSt s 0 = .activated ∧ (step s (.deactivate 0 [])).2.toOption = none) := by
+  decide
+
+/-- D1 repaired (`cfg.deactivateDetachesRemoved = true`): Deactivate looks the held documents up by id whether
+they are removed or not – for every state the only document it can miss is one that does not exist at all. -/
+theorem deactivate_looks_up_removed (s : Server) (h : s.cfg.deactivateDetachesRemoved = true) (d : DocId) :
+    s.findHeldDoc d = s.findDoc d := by
+  simp [Server.findHeldDoc, h]
+
+/-- … and on the history of D1 (client 1 still holds document 0, client 0 removes it) – with every repair in
+(`Server.init {}`) – Deactivate of client 1 succeeds: the client is deactivated, its entry for the removed
+document is detached, its version-vector row is gone, nothing is appended to the removed document's log, and
+the document stays removed.  Also when the holder had learnt about the removal in a sync before, and when it
+holds a second, live document besides the removed one. -/
+theorem deactivate_holding_removed :
+    (let s := run (Server.init {}) [.activate, .activate,
+        .attach 0 0 { cp := ⟨0, 0⟩, changes := [presChange 0 1 1], vv := [] } false false,
+        .attach 1 0 { cp := ⟨0, 0⟩, changes := [presChange 1 1 2], vv := [] } false false,
+        .remove 0 0 { cp := ⟨1, 1⟩, changes := [], vv := [], isRemoved := true }]
+     let s' := (step s (.deactivate 1 [])).1
+     clientSt s 1 = .activated ∧ docSt s 1 0 = some .attached ∧ removedOf s 0 = true ∧
+     (step s (.deactivate 1 [])).2.toOption.isSome = true ∧ clientSt s' 1 = .deactivated ∧
+       docSt s' 1 0 = some .detached ∧ removedOf s' 0 = true ∧ storedLog s' 0 = storedLog s 0 ∧
+       ((s'.findDoc 0).map (fun x => x.vvRows.map (·.1))) = some []) ∧
+    (let s := run (Server.init {}) [.activate, .activate,
+        .attach 0 0 { cp := ⟨0, 0⟩, changes := [presChange 0 1 1], vv := [] } false false,
+        .attach 1 0 { cp := ⟨0, 0⟩, changes := [presChange 1 1 2], vv := [] } false false,
+        .attach 1 1 { cp := ⟨0, 0⟩, changes := [presChange 1 1 3], vv := [] } false false,
+        .remove 0 0 { cp := ⟨1, 1⟩, changes := [], vv := [], isRemoved := true },
+        .pushpull 1 0 { cp := ⟨2, 1⟩, changes := [], vv := [] } false false]
+     let s' := (step s (.deactivate 1 [])).1
+     (step s (.deactivate 1 [])).2.toOption.isSome = true ∧ clientSt s' 1 = .deactivated ∧
+       docSt s' 1 0 = some .detached ∧ docSt s' 1 1 = some .detached ∧ (storedLog s' 1).length = 2) := by
+  decide
+
+/-- DEVIATION D4, witness (every repair in): Deactivate of an activated client can still be blocked – by the client
+itself.  A push-only sync is answered with the REQUEST's checkpoint `serverSeq` (`preparePack` returns before any
+check of it, `pushPack` checks it only when something is pushed) and `UpdateClientInfoAfterPushPull` stores it: a
+client claiming `serverSeq 5` on a document whose head is 1 has a stored checkpoint beyond the head, and every later
+write of that client – the presence clear of the server-side detach included – is refused with
+`ErrInvalidServerSeq`.  So "Deactivate of an activated client succeeds" needs the invariant `checkpoint ≤ head`,
+which well-behaved clients keep and a crafted request breaks (corpus/C11/proto-deactivate-crafted-checkpoint.trace). -/
+theorem deactivate_blocked_by_crafted_checkpoint_witness :
+    let s := run (Server.init {}) [.activate,
+      .attach 0 0 { cp := ⟨0, 0⟩, changes := [presChange 0 1 1], vv := [] } false false,
+      .pushpull 0 0 { cp := ⟨5, 1⟩, changes := [], vv := [] } true false]          -- push-only, crafted serverSeq
+    clientSt s 0 = .activated ∧ ((s.findClient 0).map (fun i => (i.checkpoint 0).serverSeq)) = some 5 ∧
+    headOfDoc s 0 = some 1 ∧
+    errOf (step s (.deactivate 0 [])).2 = some .invalidServerSeq ∧
+    clientSt (step s (.deactivate 0 [])).1 0 = .activated := by
   decide
 
 /-- D2 repaired (`cfg.detachWithoutOwnChange = true`): the server-side detach no longer depends on whether the
